@@ -121,6 +121,8 @@ def observe(text, nested, chained=False):
     if list(data.keys()) != [key]:
         return {"ok": True, "keys": list(data.keys()), "bad": "not exactly one parameter"}
     tv = data[key]
+    if tv is None or not hasattr(tv, "value"):
+        return {"ok": True, "keys": [key], "bad": "the returned environment holds a parameter without a value object"}
     val = tv.value
     return {"ok": True, "ty": CLS.get(type(tv).__name__), "unit": tv.unit or "", "val": val}
 
